@@ -135,26 +135,31 @@ def updBal (bs : List BalRow) (a : Nat) (f : BalRow → BalRow) : List BalRow :=
 /-- below tolerance on the 10^-11 grid: quantize to 10 decimals is non-zero and the value is negative -/
 def belowTol (units : Int) : Bool := decide (quant 10 (ofUnits units) ≠ 0) && decide (units < 0)
 
+/-- one step of `BalanceSet.__init__`: update the four per-account figures; after a debit check the debited account -/
+def balStep (allowNeg : Bool) (bs : List BalRow) (t : AnyTx) : Except Nat (List BalRow) :=
+  match t with
+  | .i t => .ok (updBal bs t.acct (fun b => { b with acq := b.acq + t.amount, fin := b.fin + t.amount }))
+  | .x t =>
+    let bs := updBal bs t.src (fun b => { b with sent := b.sent + t.sent })
+    let bs := updBal bs t.dst (fun b => { b with recv := b.recv + t.recv })
+    let bs := updBal bs t.src (fun b => { b with fin := b.fin - t.sent })
+    let bs := updBal bs t.dst (fun b => { b with fin := b.fin + t.recv })
+    match bs.find? (·.acct == t.src) with
+    | some b => if belowTol b.fin && !allowNeg then .error t.src else .ok bs
+    | none => .ok bs
+  | .o t =>
+    let bs := updBal bs t.acct (fun b => { b with sent := b.sent + t.outNoFee + t.fee, fin := b.fin - t.outNoFee - t.fee })
+    match bs.find? (·.acct == t.acct) with
+    | some b => if belowTol b.fin && !allowNeg then .error t.acct else .ok bs
+    | none => .ok bs
+
+/-- the transactions the balance replay sees, in its order: time-sorted `in ++ intra ++ out`, cut at the to-date -/
+def balanceOrder (to : Option Int) (ins : List InTx) (outs : List OutTx) (intras : List IntraTx) : List AnyTx :=
+  cutAt (·.ts.day) to (sortByTs (·.ts.us) (ins.map AnyTx.i ++ intras.map AnyTx.x ++ outs.map AnyTx.o))
+
 def balances (allowNeg : Bool) (to : Option Int) (ins : List InTx) (outs : List OutTx) (intras : List IntraTx) :
     Except Nat (List BalRow) :=
-  let all := sortByTs (·.ts.us) (ins.map AnyTx.i ++ intras.map AnyTx.x ++ outs.map AnyTx.o)
-  let all := cutAt (·.ts.day) to all
-  all.foldlM (fun bs t =>
-    match t with
-    | .i t => .ok (updBal bs t.acct (fun b => { b with acq := b.acq + t.amount, fin := b.fin + t.amount }))
-    | .x t =>
-      let bs := updBal bs t.src (fun b => { b with sent := b.sent + t.sent })
-      let bs := updBal bs t.dst (fun b => { b with recv := b.recv + t.recv })
-      let bs := updBal bs t.src (fun b => { b with fin := b.fin - t.sent })
-      let bs := updBal bs t.dst (fun b => { b with fin := b.fin + t.recv })
-      match bs.find? (·.acct == t.src) with
-      | some b => if belowTol b.fin && !allowNeg then .error t.src else .ok bs
-      | none => .ok bs
-    | .o t =>
-      let bs := updBal bs t.acct (fun b => { b with sent := b.sent + t.outNoFee + t.fee, fin := b.fin - t.outNoFee - t.fee })
-      match bs.find? (·.acct == t.acct) with
-      | some b => if belowTol b.fin && !allowNeg then .error t.acct else .ok bs
-      | none => .ok bs) []
+  (balanceOrder to ins outs intras).foldlM (balStep allowNeg) []
 
 def pricePerUnit (to : Option Int) (ins : List InTx) : Rat :=
   let l := cutAt (·.ts.day) to (sortByTs (·.ts.us) ins)
